@@ -41,7 +41,9 @@ func c03Gen(r *kit.Rng) *histScenario {
 		op := g.next(cur)
 		into := r.Chance(1, 5)
 		if into {
-			op.SrcKind = "mnode"
+			// the source browser stands on the whole tree: a model-backed node, or an XML or
+			// JSON document in which the starting selection is found by path
+			op.SrcKind = r.Pick([]string{"mnode", "xml", "json"})
 		}
 		sc.Ops = append(sc.Ops, op)
 		sc.Into = append(sc.Into, into)
